@@ -184,6 +184,11 @@ pub fn apply(e: &TieredEngine, op: &str) -> String {
             Ok(r) => r.iter().map(|x| x.doc_id.to_string()).collect::<Vec<_>>().join(","),
             Err(_) => "err".into(),
         },
+        // the same query answered WITHOUT the query cache (an explicit ef makes a search non-cacheable)
+        "kf" => match e.knn_search_with_ef(&[id(1) as f32 / 16.0, 0.5], 2, Some(64)) {
+            Ok(r) => r.iter().map(|x| x.doc_id.to_string()).collect::<Vec<_>>().join(","),
+            Err(_) => "err".into(),
+        },
         "flush" => match e.flush_hot_tier(true) {
             Ok(n) => n.to_string(),
             Err(_) => "err".into(),
@@ -233,6 +238,8 @@ struct Program {
     snap: usize,
     rot: u64,
     warm: Vec<String>,
+    /// operations a sequential observer runs once every thread has returned (C07: a cacheable search against a fresh one)
+    post: Vec<String>,
 }
 
 fn parse_program(fs: &Fields) -> Program {
@@ -254,6 +261,7 @@ fn parse_program(fs: &Fields) -> Program {
         snap: nat(fs, "snap").unwrap_or(0) as usize,
         rot: nat(fs, "rot").unwrap_or(0),
         warm: field(fs, "warm").map(|s| s.split(';').map(|x| x.to_string()).collect()).unwrap_or(default_warm),
+        post: field(fs, "post").map(|s| s.split(';').map(|x| x.to_string()).collect()).unwrap_or_default(),
     }
 }
 
@@ -363,6 +371,11 @@ pub fn run() {
                         let mut ids: Vec<u64> = built.engine.cold_tier().scan(|_| true);
                         ids.sort_unstable();
                         let live = ids.iter().map(|id| format!("{}={}", id, apply(&built.engine, &format!("dm:{}", id)))).collect::<Vec<_>>().join(",");
+                        let live = if p.post.is_empty() {
+                            live
+                        } else {
+                            format!("{};post;{}", live, p.post.iter().map(|o| format!("{}=>{}", o, apply(&built.engine, o))).collect::<Vec<_>>().join("!"))
+                        };
                         // C09: once every call has returned, a restart from the data directory must yield exactly this
                         match &built._dir {
                             Some(d) if p.persist => {
@@ -406,6 +419,16 @@ pub fn run() {
                 if op == "replay" {
                     let sch: Vec<usize> = field(&fs, "schedule").map(|s| s.split(',').filter_map(|x| x.parse().ok()).collect()).unwrap_or_default();
                     let (out, fin) = one(sch, None);
+                    if std::env::var("KVH_TRACE_EVENTS").is_ok() {
+                        for e in &out.events {
+                            match e {
+                                Event::Acquire { t, lock, kind, .. } => eprintln!("EV T{} acquire L{}{}", t, lock, sched::kind_ch(*kind)),
+                                Event::Release { t, lock, kind } => eprintln!("EV T{} release L{}{}", t, lock, sched::kind_ch(*kind)),
+                                Event::TryFail { t, lock, kind } => eprintln!("EV T{} tryfail L{}{}", t, lock, sched::kind_ch(*kind)),
+                                Event::Mark { t, text } => eprintln!("EV T{} mark {}", t, text),
+                            }
+                        }
+                    }
                     runs = 1;
                     steps = out.steps;
                     edges_of(&out.events, &mut edges);
@@ -440,6 +463,12 @@ pub fn run() {
                         edges_of(&out.events, &mut edges);
                         let e = histories.entry(history_text(&out.events)).or_insert((0, fin.clone()));
                         e.0 += 1;
+                        // debugging aid: KVH_TRACE_FINAL=<substring> prints the schedule of every run whose final state contains it
+                        if let Ok(pat) = std::env::var("KVH_TRACE_FINAL") {
+                            if fin.contains(&pat) {
+                                eprintln!("TRACE final={} schedule={}", fin, out.choices.iter().map(|c| c.chosen.to_string()).collect::<Vec<_>>().join(","));
+                            }
+                        }
                         finals.insert(fin);
                         let taken: Vec<usize> = out.choices.iter().map(|c| c.chosen).collect();
                         if let Some(d) = out.deadlock {
